@@ -116,7 +116,12 @@ CmdSpec ParseCmd(const string& line) {
 
 string ContentOf(const CmdSpec& c, const string& out,
                  const vector<pair<string, string>>& reads, const string& rsp_content) {
-  if (c.copy) return reads.empty() ? string() : reads[0].second;
+  if (c.copy) {
+    // several outputs: the i-th output is a copy of the i-th file read (a generator that writes a manifest in parts)
+    size_t idx = std::find(c.outs.begin(), c.outs.end(), out) - c.outs.begin();
+    if (idx >= reads.size()) idx = 0;
+    return reads.empty() ? string() : reads[idx].second;
+  }
   string key = c.gen ? string("gen") : c.line;
   key += "|rsp=" + rsp_content;
   auto po = c.per_out.find(out);
